@@ -170,6 +170,10 @@ class WriteAheadLog(Entity):
         self._last_sync_time_s: float = 0.0
         self._synced_up_to_sequence: int = 0
 
+        # Number of crash() calls; lets an append suspended on I/O notice
+        # that power was lost while it was waiting
+        self._crash_count: int = 0
+
         # Stats
         self._total_writes: int = 0
         self._total_bytes: int = 0
@@ -221,12 +225,20 @@ class WriteAheadLog(Entity):
         self._writes_since_sync += 1
 
         # Write latency
+        crash_count = self._crash_count
         yield self._write_latency
+        if crash_count != self._crash_count:
+            # Power was lost mid-append: the operation died with the process.
+            return seq
 
         # Check sync policy
         time_since_sync = self.now.to_seconds() - self._last_sync_time_s
         if self._sync_policy.should_sync(self._writes_since_sync, time_since_sync):
             yield self._sync_latency
+            if crash_count != self._crash_count:
+                # Power was lost mid-fsync: this sync never completed, so it
+                # must not mark the (discarded) entry as durable.
+                return seq
             self._synced_up_to_sequence = seq
             self._total_syncs += 1
             self._total_sync_latency_s += self._sync_latency
@@ -285,6 +297,7 @@ class WriteAheadLog(Entity):
         ]
         lost = before - len(self._entries)
         self._writes_since_sync = 0
+        self._crash_count += 1
         return lost
 
     def handle_event(self, event: Event) -> None:
